@@ -100,7 +100,9 @@ def negotiation(pid, tier, ev, rng, violations, machinery):
     """One output with unset fields negotiating with several consumers over the connect rounds
     (MetaNeg.tla): design level by TLC over all exchange orders, real Composition.connect() runs
     validated exchange by exchange by MetaNeg_Trace."""
-    runs = [(2, "FALSE")] if tier == "quick" else [(2, "TRUE"), (3, "FALSE")]
+    # (three consumers are covered by the validated real runs only: the exhaustive model with NCons = 3 did not
+    #  finish within 10 minutes - 5e5 initial configurations with liveness checking)
+    runs = [(2, "FALSE")] if tier == "quick" else [(2, "TRUE")]
     for ncons, wide in runs:
         r = tlc.model_check("MetaNeg", NEG_CFG.format(variant="intended", ncons=ncons, wide=wide), coverage=True)
         ev.add_mc(f"MetaNeg NCons={ncons} Wide={wide}", r, {"NCons": ncons, "Wide": wide, "Variant": "intended"})
